@@ -12,7 +12,7 @@
    newlines / the ends of the text. *)
 From Coq Require Import ZArith List Bool Sorted.
 From PTK Require Import Lib.Sx Lib.Py Gen.Whitespace Gen.C02_Patterns Gen.C02_CaseFold Model.Document Model.C02_DocQueries
-  Model.C02_More Model.C02_Cache Model.C02_Run Proofs.C02_Cache Proofs.C02_CaseFold Proofs.C02_FindBack Proofs.C02_More Proofs.C02_BracketsExact
+  Model.C02_More Model.C02_Cache Model.C02_Run Proofs.C02_Cache Proofs.C02_CaseFold Proofs.C02_FindBack Proofs.C02_More Proofs.C02_BracketsExact Proofs.C02_RowColTotal
   Proofs.C02_Base Proofs.C02_Coords Proofs.C02_Lines Proofs.C02_Find Proofs.C02_Brackets
   Proofs.C02_Words Proofs.C02_WordsExact Proofs.C02_WordsExactEnd Proofs.C02_FindExact Proofs.C02_Paragraphs
   Proofs.C02_LastNonBlank Proofs.C02_Boundaries Proofs.C02_Patterns.
@@ -77,6 +77,19 @@ Proof.
   intros a b. apply C02c_starts_sorted.
 Qed.
 Print Assumptions C02_row_col_to_index.
+
+(* (row, col) -> index for EVERY row and column, as the code is (round 7): rows
+   0..n-1 as such, rows -n..-1 by Python's negative indexing of the two tables,
+   rows >= n fall back to the last line and rows < -n to the first (the
+   IndexError branch); the column is clamped to that line; the final clamp to
+   0..len(text) never cuts *)
+Theorem C02_row_col_to_index_total : forall d row col,
+  let row' := norm_row (line_count d) row in
+  0 <= row' < line_count d /\
+  translate_row_col_to_index d row col =
+  nth (Z.to_nat row') (starts (lines d) 0) 0 + Z.max 0 (Z.min col (len (nth (Z.to_nat row') (lines d) []))).
+Proof. exact row_col_to_index_total. Qed.
+Print Assumptions C02_row_col_to_index_total.
 
 (* lines = text.split("\n"); join is its inverse both ways *)
 Theorem C02_lines_split_join :
@@ -517,6 +530,28 @@ Theorem C02_bracket_scanners_exact : forall l r s v, l <> r ->
      net r l (firstn k s) = 0 /\ (forall j : nat, (j <= k)%nat -> 0 <= net r l (firstn j s))).
 Proof. intros l r s v H. split; [now apply scan_right_exact|now apply scan_left_exact]. Qed.
 Print Assumptions C02_bracket_scanners_exact.
+
+(* ... and lifted to the Document, in text coordinates (round 7): the converse of
+   C02_enclosing_bracket_right / _left.  Together: off the bracket itself (l <> r),
+   the answer is Some v iff cursor + v is inside the limit, holds the partner and
+   the span in between is balanced; such a v is unique, and None iff there is none *)
+Theorem C02_enclosing_bracket_right_complete : forall d l r ep v,
+  valid d -> l <> r -> opt_is (current_char d) r = false -> 0 < v ->
+  dcur d + v < (match ep with None => len (dtext d) | Some e => Z.min (len (dtext d)) e end) ->
+  nth_error (dtext d) (Z.to_nat (dcur d + v)) = Some r ->
+  balanced_span l r (firstn (Z.to_nat (v - 1)) (skipn (Z.to_nat (dcur d + 1)) (dtext d))) ->
+  find_enclosing_bracket_right d l r ep = Some v.
+Proof. exact enclosing_right_complete. Qed.
+Print Assumptions C02_enclosing_bracket_right_complete.
+
+Theorem C02_enclosing_bracket_left_complete : forall d l r sp v,
+  valid d -> l <> r -> opt_is (current_char d) l = false -> v < 0 ->
+  (match sp with None => 0 | Some s => Z.max 0 s end) <= dcur d + v ->
+  nth_error (dtext d) (Z.to_nat (dcur d + v)) = Some l ->
+  balanced_span r l (firstn (Z.to_nat (- v - 1)) (rev (firstn (Z.to_nat (dcur d)) (dtext d)))) ->
+  find_enclosing_bracket_left d l r sp = Some v.
+Proof. exact enclosing_left_complete. Qed.
+Print Assumptions C02_enclosing_bracket_left_complete.
 
 Theorem C02_matching_bracket : forall d sp ep, valid d ->
   let v := find_matching_bracket_position d sp ep in
